@@ -76,6 +76,17 @@ fn random_payload(rng: &mut Rng, i: u64) -> AddressPayload {
         }
         rng.shuffle(&mut attrs);
     }
+    if i % 9 == 8 {
+        // large attributes: a long derivation path (often with stake distribution and
+        // network tag): encoded addresses of roughly 90..300 bytes
+        attrs.retain(|a| !matches!(a, AddrAttrProperty::DerivationPath(_)));
+        let n = if rng.bool() { rng.range(42, 77) } else { rng.range(78, 200) } as usize;
+        attrs.push(AddrAttrProperty::DerivationPath(ByteVec::from(rng.bytes(n))));
+        if rng.bool() && !attrs.iter().any(|a| matches!(a, AddrAttrProperty::AddrDistr(_))) {
+            attrs.push(AddrAttrProperty::AddrDistr(AddrDistr::SingleKeyDistribution(hash28(rng))));
+        }
+        rng.shuffle(&mut attrs);
+    }
     if rng.chance(1, 3) {
         // through the hashing constructor, as wallets build them
         let klen = if rng.bool() { 32 } else { 64 };
@@ -169,8 +180,8 @@ pub fn trace(args: &Args) {
         let pbytes = payload_of(&addr);
         let phex = hex(&pbytes);
         out.ev(json!({"ev": "crc", "payload": phex, "crc": hex8(crc32(&pbytes))}));
-        out.ev(json!({"ev": "from_decoded", "payload": phex, "crc": hex8(addr.crc)}));
         let bytes = addr.to_vec();
+        out.ev(json!({"ev": "from_decoded", "payload": phex, "crc": hex8(addr.crc), "len": bytes.len()}));
         // text forms produced by pallas itself are used for the round trip
         for entry in PARSERS {
             let r = catch(|| match entry {
@@ -187,10 +198,10 @@ pub fn trace(args: &Args) {
                 Ok(Ok(Address::Byron(b))) => {
                     let inner_same = b.decode().map(|p| p == payload).unwrap_or(false);
                     json!({"ev": "roundtrip", "entry": entry, "payload": hex(&payload_of(&b)), "crc": hex8(b.crc),
-                           "outcome": "ok", "same": b == addr && inner_same})
+                           "outcome": "ok", "same": b == addr && inner_same, "len": bytes.len()})
                 }
-                Ok(Ok(_)) => json!({"ev": "roundtrip", "entry": entry, "payload": phex, "crc": hex8(addr.crc), "outcome": "other-kind", "same": false}),
-                Ok(Err(e)) => json!({"ev": "roundtrip", "entry": entry, "payload": phex, "crc": hex8(addr.crc), "outcome": "err", "same": false, "err": e.to_string()}),
+                Ok(Ok(_)) => json!({"ev": "roundtrip", "entry": entry, "payload": phex, "crc": hex8(addr.crc), "outcome": "other-kind", "same": false, "len": bytes.len()}),
+                Ok(Err(e)) => json!({"ev": "roundtrip", "entry": entry, "payload": phex, "crc": hex8(addr.crc), "outcome": "err", "same": false, "err": e.to_string(), "len": bytes.len()}),
                 Err(msg) => json!({"ev": "panic", "at": entry, "msg": msg}),
             });
         }
